@@ -2,6 +2,7 @@ package main
 
 import (
 	"fmt"
+	"strings"
 	"go/ast"
 	"go/token"
 	"go/types"
@@ -247,6 +248,20 @@ func (fx *Fx) runLoop(st *State, lp *loopParts) {
 			}
 			head.havocHeap(k)
 		}
+		for k := range ms.fresh {
+			if ms.heaps[k] {
+				continue
+			}
+			srt, known := c.heapSorts()[k]
+			if !known {
+				continue
+			}
+			old := head.heap(k, srt)
+			head.havocHeap(k)
+			nw := head.heap(k, srt)
+			// objects that existed before the loop are not touched by writes to memory the loop allocates
+			head.assume(fmt.Sprintf("(forall ((r!f Int)) (! (=> (<= r!f %s) (= (select %s r!f) (select %s r!f))) :pattern ((select %s r!f))))", head.alloc, nw, old, nw))
+		}
 	}
 	if ms.emits || ms.opaque || ms.all {
 		head.havocLog()
@@ -271,6 +286,11 @@ func (fx *Fx) runLoop(st *State, lp *loopParts) {
 		head.assume(fx.specBool(env, inv.Expr))
 	}
 	loopHead := head.clone()
+	if fx.loopHeads == nil {
+		fx.loopHeads = map[string]*State{}
+	}
+	fx.loopHeads[fmt.Sprint(lp.ord)] = loopHead
+	defer delete(fx.loopHeads, fmt.Sprint(lp.ord))
 	// 3. condition
 	bodySt := head.clone()
 	exitSt := head
@@ -297,9 +317,29 @@ func (fx *Fx) runLoop(st *State, lp *loopParts) {
 	}
 	fx.execBlock(bodySt, lp.body.List)
 	fx.jumps = fx.jumps[:len(fx.jumps)-1]
-	back := mergeStates(c, append([]*State{bodySt}, jc.continues...))
-	if !back.dead {
-		vb := c.oblige(back, "vacuity", tag+".body", "true", "some execution completes an iteration of the loop", fx.w.pos(lp.node.Pos()))
+	// back edges are checked one by one (the normal end of the body, then each continue / goto in source order):
+	// smaller queries than on the merged state, and per-iteration clauses may mention locals that are live on one edge only
+	type edge struct {
+		st   *State
+		name string
+	}
+	edges := []edge{{bodySt, "end"}}
+	for i, cs := range jc.continues {
+		edges = append(edges, edge{cs, fmt.Sprintf("continue%d", i+1)})
+	}
+	applied := make([]int, len(iters))
+	liveEdges := 0
+	for _, e := range edges {
+		back := e.st
+		if back.dead {
+			continue
+		}
+		liveEdges++
+		sfx := ""
+		if len(edges) > 1 && e.name != "end" {
+			sfx = "." + e.name
+		}
+		vb := c.oblige(back, "vacuity", tag+".body"+sfx, "true", "some execution completes an iteration of the loop", fx.w.pos(lp.node.Pos()))
 		vb.Vacuity = true
 		if lp.postF != nil {
 			lp.postF(back)
@@ -307,18 +347,29 @@ func (fx *Fx) runLoop(st *State, lp *loopParts) {
 		for k, inv := range invs {
 			env := fx.specEnv(back, fx.entry, lp.body.Lbrace+1)
 			phi := fx.specBool(env, inv.Expr)
-			c.oblige(back, "inv-keep", clauseAnchor(tag, inv, k), phi, inv.Text, fx.w.pos(lp.node.Pos()))
+			c.oblige(back, "inv-keep", clauseAnchor(tag, inv, k)+sfx, phi, inv.Text, fx.w.pos(lp.node.Pos()))
 			back.assume(phi)
 		}
 		for k, it := range iters {
-			env := fx.specEnv(back, loopHead, lp.body.Lbrace+1)
 			parts := splitConj(it.Expr)
 			for pi, pe := range parts {
 				a := clauseAnchor(tag, it, k)
 				if len(parts) > 1 {
 					a = fmt.Sprintf("%s.c%d", a, pi+1)
 				}
-				c.oblige(back, "iter", a, fx.specBool(env, pe), it.Text, fx.w.pos(lp.node.Pos()))
+				phi, ok := fx.specBoolIfInScope(fx.specEnv(back, loopHead, lp.body.Lbrace+1), pe)
+				if !ok {
+					continue // mentions a local that is not live on this edge
+				}
+				applied[k]++
+				c.oblige(back, "iter", a+sfx, phi, it.Text, fx.w.pos(lp.node.Pos()))
+			}
+		}
+	}
+	if liveEdges > 0 && !c.dry {
+		for k, it := range iters {
+			if applied[k] == 0 {
+				sfail("iter clause %q applies to no back edge of loop %d (a variable it mentions is live on none)", it.Text, lp.ord)
 			}
 		}
 	}
@@ -380,6 +431,11 @@ func (fx *Fx) dryLoopBody(st *State, lp *loopParts) {
 		}
 	}()
 	t := st.clone()
+	if fx.loopHeads == nil {
+		fx.loopHeads = map[string]*State{}
+	}
+	fx.loopHeads[fmt.Sprint(lp.ord)] = t.clone()
+	defer delete(fx.loopHeads, fmt.Sprint(lp.ord))
 	if lp.counter != "" {
 		fx.setCounter(t, lp, c.freshConst("rk", "Int"))
 	}
@@ -416,4 +472,18 @@ func (fx *Fx) dryLoopBody(st *State, lp *loopParts) {
 	if lp.postF != nil && !t.dead {
 		lp.postF(t)
 	}
+}
+
+// specBoolIfInScope evaluates a clause; ok == false when it mentions a program variable that is not live here.
+func (fx *Fx) specBoolIfInScope(env *SpecEnv, e SExpr) (phi string, ok bool) {
+	defer func() {
+		if r := recover(); r != nil {
+			if se, is := r.(specErr); is && strings.Contains(se.msg, "is not in scope here") {
+				phi, ok = "", false
+				return
+			}
+			panic(r)
+		}
+	}()
+	return fx.specBool(env, e), true
 }
